@@ -234,8 +234,13 @@ func Mutants(t *rapid.T, root *model.Node, valid jv.V, kinds map[string]bool, o 
 			if child != nil && child.Default == nil && (p.Parent.IsRequired(p.Key) || p.InBranch) {
 				d := p.Delete()
 				rules, ok := verify(root, d, p.Path)
-				if ok && len(rules) == 1 && rules[0] == "required" {
-					out = append(out, Mutant{Doc: d, Rules: rules, Path: p.Path, Label: "required", Pos: p})
+				if ok && len(rules) == 1 && (rules[0] == "required" || (rules[0] == "anyOf" && p.InBranch)) {
+					label := "required"
+					if rules[0] == "anyOf" {
+						// the key was required by the only branch the document satisfied
+						label = "required:anyOf-branch"
+					}
+					out = append(out, Mutant{Doc: d, Rules: rules, Path: p.Path, Label: label, Pos: p})
 				} else if p.Parent.IsRequired(p.Key) {
 					discarded++
 				}
